@@ -168,6 +168,10 @@ pub enum Op {
     FrAddAssign(u8, u8, u64),
     FrSubAssign(u8, u8, u64),
     FrStart(u8, u8),
+    /// range iteration: (size, anchor selector, offset from the anchor, extra items, inclusive?, next() calls);
+    /// every yielded item and the public `start`/`end` fields after every call are address values
+    PgRange(u8, u8, u8, u8, bool, u8),
+    FrRange(u8, u8, u8, u8, bool, u8),
     /// entry-derived addresses from arbitrary raw bits
     PteAddr(u64),
     IdtHandlerAddr(u64, u64),
@@ -239,6 +243,8 @@ pub fn op() -> impl Strategy<Value = Op> {
             (size_sel(), reg(), count()).prop_map(|(s, r, x)| Op::FrAddAssign(s, r, x)),
             (size_sel(), reg(), count()).prop_map(|(s, r, x)| Op::FrSubAssign(s, r, x)),
             (size_sel(), reg()).prop_map(|(s, r)| Op::FrStart(s, r)),
+            (size_sel(), 0u8..8, 0u8..4, 0u8..6, any::<bool>(), 1u8..9).prop_map(|(s, a, b, n, i, k)| Op::PgRange(s, a, b, n, i, k)),
+            (size_sel(), 0u8..8, 0u8..4, 0u8..6, any::<bool>(), 1u8..9).prop_map(|(s, a, b, n, i, k)| Op::FrRange(s, a, b, n, i, k)),
             any::<u64>().prop_map(Op::PteAddr),
             e().prop_map(Op::PteAddr),
             (any::<u64>(), any::<u64>()).prop_map(|(a, b)| Op::IdtHandlerAddr(a, b)),
@@ -579,6 +585,115 @@ pub fn exec(regs: &mut Regs, op: &Op) -> Produced {
             let a = with_frames!(regs, *s, |arr, _S| arr[(*r % 4) as usize].start_address());
             p!(a)
         }
+        Op::PgRange(s, anchor, back, n, incl, calls) => {
+            with_pages!(regs, *s, |arr, S| {
+                let size = <S as x86_64::structures::paging::PageSize>::SIZE;
+                let back = *back as u64;
+                // anchors 0..3: a register; 4: last page below the gap, 5: very last page, 6: first page, 7: first page above the gap
+                let start: Page<S> = match *anchor {
+                    0..=3 => arr[*anchor as usize],
+                    4 => Page::containing_address(VirtAddr::new(0x0000_7fff_ffff_ffff)) - back,
+                    5 => Page::containing_address(VirtAddr::new(u64::MAX)) - back,
+                    6 => Page::containing_address(VirtAddr::zero()) + back,
+                    _ => Page::containing_address(VirtAddr::new(0xffff_8000_0000_0000)) + back,
+                };
+                let end: Page<S> = Step::forward_checked(start, *n as usize).unwrap_or(start);
+                let mut seen: Vec<Page<S>> = vec![];
+                let r = outcome(|| {
+                    let mut out: Vec<Page<S>> = vec![];
+                    if *incl {
+                        let mut r = Page::range_inclusive(start, end);
+                        for _ in 0..*calls {
+                            let item = r.next();
+                            out.extend(item);
+                            out.push(r.start);
+                            out.push(r.end);
+                            if item.is_none() {
+                                break;
+                            }
+                        }
+                    } else {
+                        let mut r = Page::range(start, end);
+                        for _ in 0..*calls {
+                            let item = r.next();
+                            out.extend(item);
+                            out.push(r.start);
+                            out.push(r.end);
+                            if item.is_none() {
+                                break;
+                            }
+                        }
+                    }
+                    out
+                });
+                match r {
+                    Outcome::Ret(v) => seen = v,
+                    Outcome::Panic(_) => {}
+                }
+                let bad = seen.iter().find(|p| !valid_v(p.start_address().as_u64()) || p.start_address().as_u64() % size != 0);
+                match bad.or(seen.last()) {
+                    Some(p) => {
+                        arr[w] = *p;
+                        Produced::Page(p.start_address().as_u64(), size)
+                    }
+                    None => Produced::Panicked,
+                }
+            })
+        }
+        Op::FrRange(s, anchor, back, n, incl, calls) => {
+            with_frames!(regs, *s, |arr, S| {
+                let size = <S as x86_64::structures::paging::PageSize>::SIZE;
+                let back = *back as u64;
+                let start: PhysFrame<S> = match *anchor {
+                    0..=3 => arr[*anchor as usize],
+                    4 | 5 => PhysFrame::containing_address(PhysAddr::new((1u64 << 52) - 1)) - back,
+                    _ => PhysFrame::containing_address(PhysAddr::zero()) + back,
+                };
+                let last: PhysFrame<S> = PhysFrame::containing_address(PhysAddr::new((1u64 << 52) - 1));
+                let room = (last.start_address().as_u64() - start.start_address().as_u64()) / size;
+                let end: PhysFrame<S> = start + (*n as u64).min(room);
+                let mut seen: Vec<PhysFrame<S>> = vec![];
+                let r = outcome(|| {
+                    let mut out: Vec<PhysFrame<S>> = vec![];
+                    if *incl {
+                        let mut r = PhysFrame::range_inclusive(start, end);
+                        for _ in 0..*calls {
+                            let item = r.next();
+                            out.extend(item);
+                            out.push(r.start);
+                            out.push(r.end);
+                            if item.is_none() {
+                                break;
+                            }
+                        }
+                    } else {
+                        let mut r = PhysFrame::range(start, end);
+                        for _ in 0..*calls {
+                            let item = r.next();
+                            out.extend(item);
+                            out.push(r.start);
+                            out.push(r.end);
+                            if item.is_none() {
+                                break;
+                            }
+                        }
+                    }
+                    out
+                });
+                match r {
+                    Outcome::Ret(v) => seen = v,
+                    Outcome::Panic(_) => {}
+                }
+                let bad = seen.iter().find(|p| !valid_p(p.start_address().as_u64()) || p.start_address().as_u64() % size != 0);
+                match bad.or(seen.last()) {
+                    Some(p) => {
+                        arr[w] = *p;
+                        Produced::Frame(p.start_address().as_u64(), size)
+                    }
+                    None => Produced::Panicked,
+                }
+            })
+        }
         Op::PteAddr(raw) => {
             let e: PageTableEntry = unsafe { core::mem::transmute::<u64, PageTableEntry>(*raw) };
             p!(e.addr())
@@ -658,7 +773,7 @@ pub fn run(run: &mut Run) {
     let n = run.cases(150_000, 6_000_000);
     run.sub(
         "prog",
-        "programs of 1..24 safe operations (46 kinds: constructors, align, + - += -=, Step fwd/bwd[_checked], page/frame containing/from_start/arith/step/from_indices/start_address for all 3 sizes, PageTableEntry::addr and idt Entry::handler_addr on raw bits) over a register file; oracle: every returned value canonical / <2^52 / size-aligned; non-trivial = a step panicked/was rejected or produced a value within 2^13 of a boundary; distinct by (op kind, result class) sequence",
+        "programs of 1..24 safe operations (48 kinds: constructors, align, + - += -=, Step fwd/bwd[_checked], page/frame containing/from_start/arith/step/from_indices/start_address for all 3 sizes, page/frame range and range_inclusive iteration anchored at registers, the gap ends, the first and the last page/frame - every yielded item and the public start/end fields after every next() -, PageTableEntry::addr and idt Entry::handler_addr on raw bits) over a register file; oracle: every returned value canonical / <2^52 / size-aligned; non-trivial = a step panicked/was rejected or produced a value within 2^13 of a boundary; distinct by (op kind, result class) sequence",
         n,
         proptest::collection::vec(op(), 1..24),
         prog,
